@@ -18,6 +18,8 @@ import PyxModel.Extract.Edit
   optional 5th element: ((CLS attr)…) attributes off the R103 chain; optional 6th: relationships row by row
     rowrel    = (ID NUMB rows parent)
     rows      = ((SIMP ASSOC SUBSUP COMP) end? (end…) (ref…) end? end? ID? (ref…) (ref…) ID? ((SUB (ref…))…))   x? = x | none
+  optional 7th: the EP_PKGREF rows
+    pkgref    = (REFERRING REFERRED)
 -/
 
 namespace Pyx.Extract.Wire
@@ -127,6 +129,10 @@ def dRowRel : Sexp → Option RowRel
   | list [i, n, w, p] => do some { id := ← dNat i, numb := ← dNat n, rows := ← dRelRows w, parent := ← dParent p }
   | _ => none
 
+def dPkgRef : Sexp → Option PkgRef
+  | list [q, p] => do some { referring := ← dNat q, referred := ← dNat p }
+  | _ => none
+
 def dDiagram : Sexp → Option ClassDiagram
   | list [cs, ts, ks, rs] => do
     some { containers := ← dList dContainer cs, dts := ← dList dDataType ts, classes := ← dList dClass ks,
@@ -137,6 +143,10 @@ def dDiagram : Sexp → Option ClassDiagram
   | list [cs, ts, ks, rs, ls, os] => do
     some { containers := ← dList dContainer cs, dts := ← dList dDataType ts, classes := ← dList dClass ks,
            rels := ← dList dRel rs, loose := ← dList dLoose ls, rowRels := ← dList dRowRel os }
+  | list [cs, ts, ks, rs, ls, os, ps] => do
+    some { containers := ← dList dContainer cs, dts := ← dList dDataType ts, classes := ← dList dClass ks,
+           rels := ← dList dRel rs, loose := ← dList dLoose ls, rowRels := ← dList dRowRel os,
+           pkgrefs := ← dList dPkgRef ps }
   | _ => none
 
 /-- component name as passed to `build_component`: `none` or a string -/
